@@ -1,6 +1,6 @@
 """Three-valued change specification derived from the statement of C03
 (not from param's Comparator): on the domain of numbers, strings, bytes, None,
-dates and list/tuple/dict containers of these, EQUAL iff Python == holds;
+dates and list/tuple/dict/set containers of these, EQUAL iff Python == holds;
 everything else is UNSPEC (a changes-only watcher may or may not run)."""
 import datetime as dt
 import numbers
@@ -21,7 +21,7 @@ def fam(x):
         return 'datetime'
     if isinstance(x, dt.date):
         return 'date'
-    if type(x) in (list, tuple, dict):
+    if type(x) in (list, tuple, dict, set):
         return 'cont'
     return None
 
@@ -35,6 +35,11 @@ def EQ(a, b):
     if fa == 'cont':
         if type(a) is not type(b) or len(a) != len(b):
             return DIFFERENT
+        if type(a) is set:
+            # unordered: equal iff Python's == holds, provided the elements are of the domain (no NaN: identity first)
+            if any(fam(x) is None or _isnan(x) or (fam(x) == 'cont' and EQ(x, x) != EQUAL) for x in list(a) + list(b)):
+                return UNSPEC
+            return EQUAL if a == b else DIFFERENT
         if type(a) is dict:
             if set(a) != set(b):
                 return DIFFERENT
